@@ -1671,17 +1671,34 @@ func (s *TreeShapeListener) addToCurrentScope(stmt *sysl.Statement) {
 	}
 }
 
+// ownArrayAttr returns v itself unless it is an array attribute. Arrays that a map holds are extended in place by
+// later merges into that map, so an array taken over from another map gets its own element list: extending it must
+// not reach back into the map it came from (e.g. from one REST method into its path and its sibling methods).
+func ownArrayAttr(v *sysl.Attribute) *sysl.Attribute {
+	arr, ok := v.GetAttribute().(*sysl.Attribute_A)
+	if !ok || arr.A == nil {
+		return v
+	}
+	return &sysl.Attribute{
+		Attribute: &sysl.Attribute_A{
+			A: &sysl.Attribute_Array{Elt: append([]*sysl.Attribute(nil), arr.A.Elt...)},
+		},
+		SourceContext:  v.SourceContext, //nolint:staticcheck
+		SourceContexts: v.SourceContexts,
+	}
+}
+
 func mergeAttrs(src map[string]*sysl.Attribute, dst map[string]*sysl.Attribute) {
 	for k, v := range src {
 		if _, has := dst[k]; !has {
-			dst[k] = v
+			dst[k] = ownArrayAttr(v)
 		} else {
 			dstAttr, dstOK := dst[k].Attribute.(*sysl.Attribute_A)
 			vAttr, vOK := v.Attribute.(*sysl.Attribute_A)
 			if dstOK && vOK {
 				dstAttr.A.Elt = append(dstAttr.A.Elt, vAttr.A.Elt...)
 			} else {
-				dst[k] = v
+				dst[k] = ownArrayAttr(v)
 			}
 		}
 	}
